@@ -762,6 +762,21 @@ class BrokerInit(Contract):
     def modifies(self, c):
         return [("obj", c.self)]
 
+    def havoc(self, c):
+        """functional post-state at call sites: exactly the fields the constructor assigns (the ensures below are proved of the body)"""
+        I = c.I
+        k = c.base_currency.t
+        dep = lift_fl(c.deposit)
+        I.add_key(k)
+        q = I.new_map(lambda x: Fl(z3.If(x == k, dep.v, z3.RealVal(0)), z3.And(x == k, dep.nan)), lambda x: x == k, "float", "defaultdict")
+        m = I.new_map(lambda x: Fl(z3.RealVal(0)), lambda x: FALSE, "float", "defaultdict")
+        l = I.new_map(lambda x: Fl(z3.RealVal(0)), lambda x: FALSE, None, "dict")
+        tr = I.new_rec("TrackRecord", _has_time=lambda x: FALSE, _n=In(0), _last_record=None)
+        for n, v in (("exchange", c.exchange), ("base_currency", c.base_currency), ("fees", c.fees), ("_epsilon", c.epsilon),
+                     ("_holdings_margins", m), ("_holdings_quantity", q), ("_initial_deposit", c.deposit), ("_last_accrual", None),
+                     ("_last_marking_to_market_price", l), ("track_record", tr)):
+            I.fset(c.self, n, v)
+
     def ensures(self, c):
         I = c.I
         h = c.heap()
